@@ -200,3 +200,98 @@ theorem onCloseFrame_cancels_closeHs (s : S) (code : Option Nat) (reason : Optio
   exact afterCloseHandshake_tCloseHs _ _ rfl
 
 end Abverif.Ws
+
+namespace Abverif.Ws
+
+/-! ### the server-connection-drop deadline (client) and the pong deadline -/
+
+theorem sendAutoPing_tServerDrop (s : S) : (sendAutoPing s).tServerDrop = s.tServerDrop := by
+  unfold sendAutoPing
+  dsimp only
+  split
+  · show (sendPing (beginAutoPing s) _).tServerDrop = s.tServerDrop
+    rw [(sendPing_SendEq _ _).tServerDrop]; rfl
+  · rw [(sendPing_SendEq _ _).tServerDrop]; rfl
+
+theorem fire_keeps_serverDrop (s : S) (k : TK) (t : Nat × Nat) (h : s.tServerDrop = some t) (hk : k ≠ .serverDrop) :
+    (fire s k).st = .closed ∨ (fire s k).tServerDrop = some t := by
+  cases k with
+  | serverDrop => exact absurd rfl hk
+  | openHs =>
+    simp only [fire]; split
+    · left; exact dropConnection_st _ _
+    · right; exact h
+  | closeHs =>
+    simp only [fire]; split
+    · left; exact dropConnection_st _ _
+    · right; exact h
+  | pingTimeout =>
+    simp only [fire]; split
+    · left; exact dropConnection_st _ _
+    · right; exact h
+  | pingNext => right; simp only [fire]; rw [sendAutoPing_tServerDrop]; exact h
+  | sendTick => right; simp only [fire]; rw [(sendTick_SendEq _).tServerDrop]; exact h
+
+theorem advanceTo_serverDrop_inv (target : Nat) (t : Nat × Nat) :
+    ∀ (fuel : Nat) (s : S), (s.st = .closed ∨ s.tServerDrop = some t) →
+      ((advanceTo target fuel s).st = .closed ∨ (advanceTo target fuel s).tServerDrop = some t) := by
+  intro fuel
+  induction fuel with
+  | zero => intro s h; simpa [advanceTo] using h
+  | succ n ih =>
+    intro s h
+    unfold advanceTo
+    split
+    · rename_i k d q hn
+      split
+      · apply ih
+        rcases h with h | h
+        · exact Or.inl (fire_closed _ k (by simpa using h))
+        · by_cases hk : k = .serverDrop
+          · subst hk
+            by_cases hc : s.st = .closed
+            · exact Or.inl (fire_closed _ _ (by simpa using hc))
+            · exact Or.inl (fire_serverDrop_drops _ (by simpa using hc)).1
+          · exact fire_keeps_serverDrop _ k t (by simpa using h) hk
+      · simpa using h
+    · simpa using h
+
+/-- **server_drop_timeout_drops**: a client whose server-connection-drop timer is armed for `D` is CLOSED once the
+clock has passed `D` with every due timer run (the server's TCP drop would have cancelled it: `connectionLost`) -/
+theorem server_drop_timeout_drops (target fuel : Nat) (s : S) (D q : Nat)
+    (harmed : s.tServerDrop = some (D, q)) (hD : D ≤ target)
+    (hq : Quiescent target (advanceTo target fuel s)) :
+    (advanceTo target fuel s).st = .closed := by
+  rcases advanceTo_serverDrop_inv target (D, q) fuel s (Or.inr harmed) with h | h
+  · exact h
+  · exfalso
+    have : (TK.serverDrop, (D, q)) ∈ (advanceTo target fuel s).timers := by
+      simp [S.timers, h]
+    have := hq _ this
+    simp at this
+    omega
+
+/-- the framework's connection-lost notification cancels the server-drop, ping and open-handshake timers -/
+theorem connectionLost_cancels (s : S) (h : s.lost = false) :
+    (connectionLost s).tServerDrop = none ∧ (connectionLost s).tPingTimeout = none ∧
+    (connectionLost s).tPingNext = none ∧ (connectionLost s).tOpenHs = none := by
+  unfold connectionLost
+  rw [if_neg (by simp [h])]
+  unfold reportClose markClosed cancelOnLost
+  split <;> split <;> (try split) <;> simp [S.emit]
+
+/-- a matching pong cancels the pong deadline -/
+theorem pong_cancels_pingTimeout (s : S) (p : Bytes) (h : s.pingPending = some p) :
+    (onPongFrame s p).tPingTimeout = none := by
+  unfold onPongFrame
+  simp only [h, if_true]
+  split <;> simp [armPingNext, S.timer]
+
+/-- the handshake completing cancels the opening-handshake deadline -/
+theorem handshakeDone_cancels_openHs (s : S) (h : s.st = .connecting) : (handshakeDone s).tOpenHs = none := by
+  unfold handshakeDone
+  rw [if_neg (by simp [h])]
+  dsimp only
+  split <;> simp [armPingNext, S.timer]
+
+end Abverif.Ws
